@@ -210,6 +210,23 @@ def streams(tier, rng):
         for pkt in _crc_units(rng, d, 30):
             cases.append((d["op"], [pkt] + list(d["extra"]) + [pkt, [0]]))
     yield "uncorrupted", "exact", cases
+    # 5. every packet length: the standalone check and the decoder agree on uncorrupted packets of
+    #    every size (length-field carries: ..., 0x00F8..0x0107, 0x01F8.., ...)
+    cases = []
+    top = 4200 if big else 1100
+    for n in range(0, top):
+        pkt = pc.tc_layout(17, 1, 0x123, n % 16384, 7, 15, [(n + i) & 0xFF for i in range(n)])
+        cases.append((506, [pkt, pkt, [0]]))
+        if n % 8 == 0 or n % 256 > 246 or n % 256 < 8:
+            cases.append((502, [pkt, pkt, [0]]))
+        pkt = pc.tm_layout(3, 25, 0x42, n % 16384, 9, 0, 1, 0, [1, 2, 3, 4, 5, 6, 7], [(n * 3 + i) & 0xFF for i in range(n)])
+        cases.append((506, [pkt, pkt, [0]]))
+        if n % 8 == 0 or n % 256 > 246 or n % 256 < 8:
+            cases.append((602, [pkt, [7], pkt, [0]]))
+    for n in [65520, 65527 - 7]:
+        pkt = pc.tm_layout(3, 25, 0x42, 1, 9, 0, 1, 0, [1, 2, 3, 4, 5, 6, 7], [i & 0xFF for i in range(n)])
+        cases.append((506, [pkt, pkt, [0]]))
+    yield "exh_uncorrupted_every_length", "exact", cases
 
 
 def oracle(case, ires, sres):
